@@ -1,18 +1,9 @@
 //! pvmon — runtime monitors for paseto-rs. One sub-command per property; each run is one shard
 //! and writes a JSON report the python driver (`/verif/check`) merges into the evidence file.
-#![allow(clippy::type_complexity, dead_code)]
 
-mod b64;
-mod backend;
-mod monitors;
-mod prims;
-mod refimpl;
-mod rngshim;
-mod util;
-mod vectors;
-mod wraps;
 
-use util::Opts;
+use pvmon::util::Opts;
+use pvmon::{monitors, util, vectors};
 
 fn parse_opts() -> Opts {
     let mut args = std::env::args().skip(1);
@@ -28,6 +19,7 @@ fn parse_opts() -> Opts {
         only: None,
         part: None,
         extra: vec![],
+        scale: 1.0,
     };
     while let Some(a) = args.next() {
         let mut val = || args.next().unwrap_or_else(|| panic!("missing value for {a}"));
@@ -44,6 +36,7 @@ fn parse_opts() -> Opts {
             "--backend" => o.backend = Some(val()),
             "--only" => o.only = Some(val().parse().expect("only")),
             "--part" => o.part = Some(val()),
+            "--scale" => o.scale = val().parse().expect("scale"),
             _ => o.extra.push(a),
         }
     }
